@@ -43,6 +43,7 @@ func wUniverse(seed uint64, pnull int) rig.UniverseSpec {
 }
 
 type witnessDef struct {
+	Raw    func() json.RawMessage // explicit spec (overrides the opCase fields)
 	ID     string
 	Prop   string
 	Query  string
@@ -71,6 +72,14 @@ var witnessDefs = []witnessDef{
 	{ID: "KF-C02-07", Prop: "C02", Query: `query($n: Int = 7) { hero { age(n: $n) } }`},
 	{ID: "KF-C02-08", Prop: "C02", Query: `{ actors { alpha beta ... on Human { name age } } }`},
 	{ID: "KF-C02-12", Prop: "C02", Query: `{ actors { ... on Human { age } } }`},
+	{ID: "KF-C15-01", Prop: "C15", Raw: func() json.RawMessage {
+		return mustJSON(c15Case{SDL: "type Query {\n  deep: [[[[Int!]!]!]!]!\n  ok: [[[Int!]!]!]\n}\n"})
+	}},
+	{ID: "KF-C03-01", Prop: "C03", Raw: func() json.RawMessage {
+		return mustJSON(mergeCase{U: rig.UniverseSpec{Services: []rig.ServiceSpec{
+			{Name: "svc0", SDL: "directive @again(n: Int) repeatable on FIELD\ntype Query {\n  a: String\n}\n"},
+			{Name: "svc1", SDL: "type Query {\n  b: String\n}\n"}}}, Perm: []int{0, 1}})
+	}},
 	{ID: "KF-C01-09", Prop: "C01", Query: `{ hero { y: friend { name friend { age } } friend { name friend { boss { name } } } } }`},
 }
 
@@ -100,6 +109,12 @@ func MakeWitnesses() int {
 		for seed := uint64(1); seed <= 300 && !found; seed++ {
 			sp := opCase{U: wUniverse(seed, wd.PNull), Cfg: wd.Cfg, Op: gen.Op{Query: wd.Query, Variables: wd.Vars, OperationName: wd.OpName}}
 			raw := mustJSON(sp)
+			if wd.Raw != nil {
+				raw = wd.Raw()
+				if seed > 1 {
+					break
+				}
+			}
 			p := run.Registry[wd.Prop]
 			for _, r := range p.Exec(&run.Ctx{Seed: 1, Tier: "quick"}, 0, raw) {
 				if r.Verdict != run.Violated {
